@@ -38,7 +38,11 @@ DEFAULTS = dict(search="CBO", sm="ET", acq="UCBd", mps="cl_max", design="random"
                 # ff = filter_failures policy; fail_at = indices of evaluations that fail ("late" failures, after the initial
                 # design); again = rounds in which ask is called a second time before the tell; inproc = several searches
                 # built from ONE problem object in one process before any of them runs (seq | interleaved), twins = how many
-                ff="min", fail_at=[], again=[], inproc="none", twins=2)
+                ff="min", fail_at=[], again=[], inproc="none", twins=2,
+                # update_prior = CBO(update_prior=True): candidates sampled from a KDE of the good region; objs = the SAME option
+                # objects (surrogate_model_kwargs dict, scheduler dict, run_function_kwargs, the problem) are handed to every
+                # search of the process; inproc="history": an earlier search with ANOTHER seed built from them runs first
+                update_prior=False, objs=False)
 N_INIT = 4
 OPTION_KEYS = list(DEFAULTS)
 
@@ -112,7 +116,8 @@ def spine(thorough=False):
     Q = [
         dict(acq="MES"),
         dict(search="REGEVO", batches=[2, 2, 2, 1, 2, 2]),
-        dict(),
+        # option objects reused by an earlier search with another seed (default CBO otherwise)
+        dict(objs=True, inproc="history"),
         dict(seed=0, design="sobol"),
         dict(space="small", seed=0, acq="gp_hedged", mps="qUCBd"),
         dict(search="RS", space="small", seed=0, mode="search"),
@@ -121,23 +126,28 @@ def spine(thorough=False):
         dict(ff="ignore", fail_at=[4, 6], batches=[2, 2, 1, 1, 1, 1, 2]),
         dict(again=[2, 3], batches=[2, 2, 1, 2, 1], mps="cl_min"),
         # several searches built from the SAME problem object before any of them runs
-        dict(search="RS", inproc="seq", twins=3, mode="search", batches=[3, 3]),
+        dict(search="RS", inproc="seq", twins=3, mode="search", batches=[3, 3], seed=2 ** 32 - 1),
         dict(search="REGEVO", inproc="seq", batches=[2, 2, 2, 2, 2]),
         dict(cond=True, inproc="interleaved", batches=[2, 2, 2, 1]),
+        # update_prior (KDE sampling, optimum on two bounds) and the transfer-learning route (columns of one kind)
+        dict(space="floats", update_prior=True, batches=[2, 2, 2, 2, 2]),
+        dict(space="floats", transfer="gmm"),
         dict(sm="RF", acq="MESd", mps="qUCB", design="lhs", batches=[3, 1, 3, 1]),
-        dict(search="RS", cond=True, seed=2 ** 32 - 1),
-        dict(sm="RF", acq="EI", mps="cl_mean", nobj=2, moo="Linear", fail=False, seed=2 ** 31 - 1),
+        dict(sm="RF", acq="EI", mps="cl_mean", nobj=2, moo="Linear", seed=2 ** 31 - 1),
         dict(sm="GP", acq="UCB", mps="cl_min", design="halton"),
         dict(sm="GP", acq="gp_hedge", mps="cl_mean", cond=True, batches=[3, 1, 3, 1]),
-        dict(sm="TB", acq="PId", mps="boltzmann", design="grid"),
+        dict(sm="TB", acq="PId", mps="boltzmann", design="grid", mode="search", fail=True, batches=[4, 3, 2]),
+        dict(acq="EId", mps="topk", design="hammersly", nobj=2, moo="PBI", cond=True, batches=[2, 2, 1, 1, 1, 3]),
+        dict(search="EDS", design="halton", batches=[4, 3, 2]),
+    ]
+    T = [
+        dict(),
+        dict(search="RS", cond=True, seed=2 ** 32 - 1),
         dict(acq="EId", mps="topk", design="hammersly", batches=[4, 3, 2]),
         dict(mode="search", fail=True, batches=[4, 3, 2]),
         dict(nobj=2, moo="PBI", cond=True, batches=[2, 2, 1, 1, 1, 3]),
-        dict(search="EDS", design="halton", batches=[4, 3, 2]),
         dict(sm="DUMMY", seed=0),
         dict(acq="MES", nobj=2, cond=True, mps="cl_mean", moo="AugChebyshev"),
-    ]
-    T = [
         dict(seed=0),
         dict(space="small", seed=0),
         dict(search="REGEVO", space="small", seed=0),
@@ -185,8 +195,41 @@ def stress_set():
         dict(space="small", search="EDS", design="grid", n_points=14),
         dict(seed=0), dict(seed=0, search="RS"), dict(seed=0, search="REGEVO"), dict(seed=0, space="small", search="REGEVO"),
     ]
-    S += update_next_set() + same_problem_set()
+    S += update_next_set() + same_problem_set() + reused_objects_set() + update_prior_set() + transfer_set()
     return S
+
+
+def reused_objects_set():
+    """an earlier search with another seed was built from the same problem / option objects (dicts) in the process"""
+    S = []
+    for kw in (dict(), dict(sm="RF", acq="EI"), dict(sm="GBRT", acq="UCB"), dict(sm="GP", acq="UCB", n_points=48), dict(nobj=2, cond=True),
+               dict(search="RS"), dict(search="REGEVO", batches=[2, 2, 2, 2, 2]), dict(search="EDS"), dict(space="small"), dict(mode="search")):
+        S.append(dict(kw, objs=True, inproc="history"))
+    S.append(dict(objs=True, inproc="seq", twins=3))
+    S.append(dict(objs=True, inproc="interleaved", cond=True, sm="RF"))
+    return S
+
+
+def update_prior_set():
+    """CBO(update_prior=True): candidates come from a KDE of the good region (optimum on a bound: samples fall outside)"""
+    return [
+        dict(space="floats", update_prior=True, batches=[2, 2, 2, 2, 2]),
+        dict(space="floats", update_prior=True, upq=0.3, sm="RF", acq="EI", mps="qUCB", batches=[3, 1, 3, 1, 2]),
+        dict(space="floats", update_prior=True, mode="search", nobj=2, batches=[4, 3, 3]),
+        dict(update_prior=True, batches=[2, 2, 2, 2, 2]),
+        dict(update_prior=True, upq=0.25, sm="GP", acq="UCB", mps="cl_min", n_points=48),
+    ]
+
+
+def transfer_set():
+    """CBO.fit_generative_model(df) before the search; df has several columns of one kind"""
+    return [
+        dict(space="floats", transfer="gmm"),
+        dict(space="floats", transfer="gmm", mode="search", sm="RF", acq="EI", batches=[4, 3, 3]),
+        dict(transfer="gmm"),
+        dict(transfer="gmm", mps="qUCB", nobj=2),
+        dict(space="small", transfer="gmm"),
+    ]
 
 
 def update_next_set():
@@ -239,6 +282,11 @@ def random_cfg(rng, allow_ga=False):
             c["moo"] = rng.choice(MOO)
         if rng.random() < 0.1:
             c["transfer"] = "gmm"
+        if rng.random() < 0.1:
+            c["update_prior"] = True
+        if rng.random() < 0.1:
+            c["ff"] = "ignore"
+            c["fail_at"] = [5, 7]
         if rng.random() < 0.15:
             c["acq_opt"] = rng.choice(["sampling", "lbfgs"] + (["ga", "mixedga"] if allow_ga else []))
             if c["acq_opt"] in ("ga", "mixedga"):
@@ -253,7 +301,12 @@ def random_cfg(rng, allow_ga=False):
     if c.get("nobj") == 2:
         c["fail"] = False  # failures before the first success in MOO are C04/C06's concern
     c["seed"] = rng.choice([1, 7, 42, 2024, 0, 0, 2 ** 31 - 1, 2 ** 32 - 1])
-    c["space"] = "small" if rng.random() < 0.3 else "mixed"
+    c["space"] = rng.choice(["small", "small", "small", "floats", "floats"] + ["mixed"] * 5)
+    if c["space"] == "floats":
+        c["cond"] = False
+    if rng.random() < 0.15:
+        c["objs"] = True
+        c["inproc"] = rng.choice(["history", "history", "seq", "interleaved"])
     c["batches"] = list(rng.choice(SMALL_SCRIPTS if c["space"] == "small" else SCRIPTS))
     if c["space"] == "small" and c.get("search") == "EDS":
         c["n_points"] = 14
@@ -268,6 +321,10 @@ def configs_for_site(site):
         return [full(c) for c in same_problem_set()]
     if "update_next" in site.func:
         return [full(c) for c in update_next_set()]
+    if site.file.endswith("gmm.py") or "model_sdv" in site.text:
+        return [full(c) for c in transfer_set()]
+    if any(k == "update_prior" for k, _ in site.conds):
+        return [full(c) for c in update_prior_set()]
     out = [{}]
     for k, vals in site.conds:
         out = [dict(c, **{k: v}) for c in out for v in vals]
@@ -355,8 +412,8 @@ def model_request(cfg):
     """the configuration as `Opts` + `Op` script of Model/Streams.lean (environment flags from the script)"""
     strat = {"cl_min": "cl", "cl_mean": "cl", "cl_max": "cl", "topk": "topk", "boltzmann": "boltzmann", "qUCB": "qlcb", "qUCBd": "qlcb"}
     search = {"CBO": "CBO", "EDS": "CBO", "RS": "RS", "REGEVO": "REGEVO"}[cfg["search"]]
-    opts = dict(search=search, strategy=strat[cfg["mps"]], ndims=(3 + (1 if cfg["cond"] else 0)) if cfg["space"] == "small" else 5 + (2 if cfg["cond"] else 0),
-                estimatorByName=cfg["sm"] in ("GP", "DUMMY"), cfgSpace=bool(cfg["cond"]), design=cfg["design"] != "random",
+    opts = dict(search=search, strategy=strat[cfg["mps"]], ndims=4 if cfg["space"] == "floats" else (3 + (1 if cfg["cond"] else 0)) if cfg["space"] == "small" else 5 + (2 if cfg["cond"] else 0),
+                estimatorByName=cfg["sm"] in ("GP", "DUMMY"), cfgSpace=bool(cfg["cond"]) and cfg["space"] != "floats", design=cfg["design"] != "random",
                 mes=cfg["acq"] in ("MES", "MESd"), hedge=cfg["acq"].startswith("gp_hedge"), moo=cfg["nobj"] == 2,
                 pymoo=cfg["acq_opt"] in ("ga", "mixedga"))
     ops, told, evals = [], 0, 0
@@ -392,19 +449,24 @@ def twins_bad(res):
     return any(t != res["props"] for t in res.get("twins", []))
 
 
+def inproc_bad(res, ref):
+    """the in-process searches disagree with each other, or with the same search run alone in a fresh interpreter"""
+    return twins_bad(res) or (ref is not res and res["status"] == "ok" and ref["status"] == "ok" and observable(res)[1] != observable(ref)[1])
+
+
 def diagnose_and_shrink(ck, R, cfg, mode="pair"):
     """which hidden input, and the smallest configuration (towards DEFAULTS) that still differs.
     mode "pair": two fresh interpreters differ;  mode "twins": the in-process searches of ONE interpreter differ."""
     def differs(c, vary=("hash", "globals")):
         if mode == "twins":
             f = R.submit(c, 1, 3, "a")
-            return f, f
+            return f, (R.submit(dict(c, inproc="none"), 1, 3, "r") if c["inproc"] != "none" else f)
         fa, fb = R.pair(c, vary)
         return fa, fb
 
     def settle(pairs):
         if mode == "twins":
-            return [twins_bad(a.result()) for a, _ in pairs]
+            return [inproc_bad(a.result(), r.result()) for a, r in pairs]
         return [observable(a.result()) != observable(b.result()) for a, b in pairs]
 
     # 1. shrink options: single resets in parallel, then the combination
@@ -440,8 +502,10 @@ def diagnose_and_shrink(ck, R, cfg, mode="pair"):
             cur = dict(cur, batches=p)
             break
     if mode == "twins":
-        ra = differs(cur)[0].result()
-        return cur, ["sharedState"], ra, {"status": ra["status"], "props": ra["twins"][0] if ra.get("twins") else [], "error": ra.get("error", "")}
+        fa, fr = differs(cur)
+        ra, rr = fa.result(), fr.result()
+        other = next((t for t in ra.get("twins", []) if t != ra["props"]), None)
+        return cur, ["sharedState"], ra, (dict(ra, props=other) if other is not None else rr)
     # 3. which hidden input
     kinds = {"osEntropy": (), "hashSeed": ("hash",), "globalRng": ("globals",)}
     res = settle([differs(cur, v) for v in kinds.values()])
@@ -589,7 +653,7 @@ def run(ck):
                     add(c, "reaches-offending-site")
             for c in spine(ck.thorough):
                 add(c, "spine")
-            for _ in range(ck.pick(3, 230)):
+            for _ in range(ck.pick(2, 190)):
                 add(random_cfg(ck.rng, allow_ga=ck.thorough), "random")
             if ck.thorough:
                 for ao in ("ga", "mixedga"):
@@ -600,7 +664,7 @@ def run(ck):
             for i, (c, origin) in enumerate(todo):
                 fa, fb = R.pair(c)
                 c2 = dict(c, seed=other_seed(c["seed"]))
-                with_other_seed = ck.thorough or i % 3 == 0 or c["search"] == "EDS" or origin != "spine"
+                with_other_seed = ck.thorough or i % 4 == 0 or c["search"] == "EDS" or origin == "corpus"
                 fr = R.submit(dict(c, inproc="none"), 1, 3, "r") if c["inproc"] != "none" else None
                 futs.append((c, origin, fa, fb, R.submit(c2, 1, 3, "c") if with_other_seed else None, fr))
             preds = drv.ask_all([{"op": "predict", "cfg": lean_cfg(c), "rounds": len(c["batches"])} for c, _ in todo])
@@ -694,15 +758,18 @@ def run(ck):
                     spred = drv.ask({"op": "predict", "cfg": lean_cfg(cur), "rounds": len(cur["batches"])})
                     clause = "depends-on-" + "+".join(hidden) if hidden else "differs-across-processes"
                     if key[0] == "twins":
-                        clause = "same-problem-searches-differ"
+                        clause = "earlier-search-changes-proposals" if cur["inproc"] == "history" else "same-problem-searches-differ"
                     fp = fingerprint(clause, spred["hidden"], cur)
                     shr = {"cfg": case_cfg(cur),
                            "hidden_inputs": hidden, "table_sites": spred["hidden"],
                            "also_failing": [g[1]["cfg"] for g in group][:8],
                            "envs": {"a": {"PYTHONHASHSEED": 1, "perturb": 3}, "b": {"PYTHONHASHSEED": 2, "perturb": 17}}}
                     for _ in group:
-                        ck.fail(fp, (f"same seed {cur['seed']}, same options, {cur['twins']} searches built from one problem object in one "
-                                     f"process ({cur['inproc']}): proposal sequences differ") if key[0] == "twins" else
+                        ck.fail(fp, ((f"seed {cur['seed']}: the search proposes another sequence when an earlier search with another seed was built "
+                                      "from the same problem / option objects in the same process than when it runs alone")
+                                     if cur["inproc"] == "history" else
+                                     (f"same seed {cur['seed']}, same options, {cur['twins']} searches built from one problem object in one "
+                                      f"process ({cur['inproc']}): proposal sequences differ")) if key[0] == "twins" else
                                     f"same seed {cur['seed']}, same options, two interpreters: proposal sequences differ "
                                     f"({', '.join(hidden) or 'process'})",
                                 shr, {"first_difference": first_diff(sa, sb),
